@@ -106,23 +106,52 @@ def run(chk, repo, tier):
     rel = db.rel
 
     # ------------------------------------------------------------------ lock helpers
+    def path_lock_mode(call):
+        for kw in call.keywords:
+            if kw.arg == 'shared' and isinstance(kw.value, ast.Constant):
+                return 'shared' if kw.value.value else 'exclusive'
+        return 'exclusive'   # default shared=False
+
     def lock_kind(cls, meth):
         f = cls.methods.get(meth)
         if f is None:
+            if cls is dbc and direct_path_locks():
+                return None      # the helpers were folded into snapshot() / transaction(): decided at the with statements
             raise AnalysisError(f'{cls.name}.{meth} not found')
         for n in walk_no_nested(f.node):
             if isinstance(n, ast.Return) and isinstance(n.value, ast.Call) and call_name(n.value) == 'path_lock':
-                for kw in n.value.keywords:
-                    if kw.arg == 'shared' and isinstance(kw.value, ast.Constant):
-                        return 'shared' if kw.value.value else 'exclusive'
-                return 'exclusive'   # default shared=False
+                return path_lock_mode(n.value)
         return None
+
+    def direct_path_locks():
+        # `with path_lock(.., shared=..):` written directly in snapshot() / transaction()
+        out = {}
+        for mname in ('snapshot', 'transaction'):
+            mf = dbc.methods.get(mname)
+            if mf is None:
+                continue
+            for n in walk_no_nested(mf.node):
+                if isinstance(n, ast.With):
+                    for it in n.items:
+                        if isinstance(it.context_expr, ast.Call) and call_name(it.context_expr) == 'path_lock':
+                            out[mname] = (n, path_lock_mode(it.context_expr))
+        return out
 
     for cls in (dbc, ctx.classes.get('LocalDirectoryContext')):
         if cls is None:
             raise AnalysisError('LocalDirectoryContext not found')
         for meth, want in (('_read_lock', 'shared'), ('_write_lock', 'exclusive')):
             got = lock_kind(cls, meth)
+            if got is None and cls is dbc and cls.methods.get(meth) is None:
+                dm = direct_path_locks().get('snapshot' if meth == '_read_lock' else 'transaction')
+                got = dm[1] if dm else None
+                chk.instance(K1, f'{cls.name}.{"snapshot" if meth == "_read_lock" else "transaction"}: with path_lock({got})')
+                if got != want and not (meth == '_read_lock' and got == 'exclusive'):
+                    chk.violation(K1, cls.module.rel, f'{cls.name}.{"snapshot" if meth == "_read_lock" else "transaction"}',
+                                  f'path_lock shared mode is {got}, expected {want}', f'the {want} lock is not taken',
+                                  witness='a writer and a reader (or two writers) of the same entry run concurrently; the '
+                                          'reader observes a half-written entry')
+                continue
             chk.instance(K1 if cls is dbc else K5, f'{cls.name}.{meth} -> path_lock({got})')
             if got != want:
                 chk.violation(K1 if cls is dbc else K5, cls.module.rel, f'{cls.name}.{meth}',
@@ -139,6 +168,10 @@ def run(chk, repo, tier):
                 for it in n.items:
                     c = it.context_expr
                     if isinstance(c, ast.Call) and isinstance(c.func, ast.Attribute) and c.func.attr == lockmeth:
+                        return n
+                    # the lock taken directly: `with path_lock(.., shared=False)` is the write lock
+                    if isinstance(c, ast.Call) and call_name(c) == 'path_lock' \
+                            and path_lock_mode(c) == ('shared' if lockmeth == '_read_lock' else 'exclusive'):
                         return n
         return None
 
